@@ -269,6 +269,17 @@ func dumpObj(sb *strings.Builder, o ugo.Object, depth int, ids bool) {
 			sb.WriteString(";")
 		}
 		sb.WriteString("}")
+	case *ugo.SyncMap:
+		// (String() of a map with several keys follows Go's map order: render the guarded map canonically)
+		sb.WriteString("syncMap:")
+		if v == nil {
+			sb.WriteString("nil")
+		} else {
+			v.RLock()
+			m := v.Value
+			v.RUnlock()
+			dumpObj(sb, m, depth, ids)
+		}
 	case *ugo.Function:
 		if ids {
 			fmt.Fprintf(sb, "@%p", v)
@@ -457,6 +468,9 @@ ob[1] = 77
 os := import("objsync")
 os.k = a0
 os.added = 1
+os.nest[0] += 1
+os.nest[1].x = 7
+os.by[0] = 6
 return [v.n, v.arr, v.m.k, v.by, v.deep.a[0].x, v.deep.a[1], v.sm.k, len(v.esm), oa, ob, os.k]
 `
 	case "half-import":
@@ -549,7 +563,7 @@ return [old, typeName(s.ToUpper), s.Repeat("ab", 2), t.Second, s.__module_name__
 oa := import("objarr")
 ob := import("objbytes")
 os := import("objsync")
-before := [v.n, v.arr[0], v.arr[2], v.m.k, v.m.added, v.by[0], v.deep.a[0].x, v.deep.a[1][0], v.sm.k, len(v.esm), v.esm.z, oa, ob, os.k, os.added]
+before := [v.n, v.arr[0], v.arr[2], v.m.k, v.m.added, v.by[0], v.deep.a[0].x, v.deep.a[1][0], v.sm.k, len(v.esm), v.esm.z, oa, ob, os.k, os.added, string(os.nest), string(os.by)]
 oa[1] += 1
 v.arr[1] += 1
 v.by[1] = 3
@@ -832,6 +846,10 @@ func init() {
 			c.dist["oracle:abort-isolation"]++
 			// a run's outcome depends on ITS arguments only: not on what an earlier run on another VM did to
 			// the argument slice the host passes to both
+			if pr := conc.NilGlobalsProbe(); pr != "" {
+				c.Violation(PropViolation{Property: "C07", What: "a run's outcome depends on earlier runs through the globals it was NOT given: " + pr,
+					Input: "global g; old := g; g = (g || 0) + 1; return [old, g]   run with nil globals (conc.NilGlobalsProbe)", Sig: "C07:nil-globals-shared"})
+			}
 			if pr := conc.HostArgsProbe(); pr != "" {
 				c.Violation(PropViolation{Property: "C07", What: "a run's outcome depends on an earlier run that was given the same argument slice: " + pr,
 					Input: "param ...xs; xs[0] = xs[0] + \"!\"; xs = append(xs, 1); return xs   (conc.HostArgsProbe)", Sig: "C07:host-args-shared"})
